@@ -49,8 +49,12 @@ theorem readConList_honest {T : List Lbl} (hT : T.length < nullIdx) (cfg : Cfg) 
   have hu : unle (le (Prim.u32).width ls.length) = ls.length := unle_le_of_lt (by simpa [Prim.width] using hw.1)
   have hna : ¬ (ls.length * safePtrSize ≥ cfg.allocLimit) := by have := hw.2; omega
   have h := Honest.bind (T := T) (Honest.data cfg .u32 ls.length none)
-    (r2 := fun nb s => if unle nb * safePtrSize ≥ cfg.allocLimit then Res.err Err.alloc s else readPtrs cfg (unle nb) s)
-    (Honest.congr (fun s => by simp only [hu, hna, ↓reduceIte]) (readPtrs_honest hT cfg ls))
+    (r2 := fun nb s => if !s.good || !lenGe s.rest (unle nb) then Res.err Err.streamFail s
+      else if unle nb * safePtrSize ≥ cfg.allocLimit then Res.err Err.alloc s else readPtrs cfg (unle nb) s)
+    (Honest.congrOn (fun t tail pos R F => by
+      have hlg : lenGe ((encItems t (ls.map (.ptr true ·))).2 ++ tail) ls.length = true := by
+        rw [lenGe_iff]; simp [ptrs_enc_length]; omega
+      simp only [hu, hna, hlg, Bool.not_true, Bool.or_self, Bool.false_eq_true, ↓reduceIte]) (readPtrs_honest hT cfg ls))
   exact h
 
 def WFEntry (cfg : Cfg) (e : ConEntry) : Prop := WFKey cfg e.1 ∧ WFList cfg e.2
@@ -85,6 +89,11 @@ structure WFSet (cfg : Cfg) (s : ConSet) : Prop where
   th : s.threshold < 2 ^ 32
   tli : s.tableLengthIndex < 2 ^ 16
   cnt : s.entries.length < 2 ^ 32
+  /-- `count` and `tableLength` do not exceed what the stream holds behind them (always true of `count`: every entry
+      takes bytes; a table sparser than that is loaded into a smaller one and its `tableLength` does not round-trip) -/
+  bounds : ∀ t : List Lbl,
+    s.entries.length ≤ (encItems t (.prim .u16 s.tableLengthIndex :: (entriesCalls s.entries ++ []))).2.length ∧
+    s.tableLength ≤ (encItems t (.prim .u16 s.tableLengthIndex :: (entriesCalls s.entries ++ []))).2.length
   entries : ∀ e ∈ s.entries, WFEntry cfg e
 
 theorem rawSet_entries (T : List Lbl) (s : ConSet) : (rawSet T s).entries = s.entries.map (rawEntry T) := rfl
@@ -110,28 +119,63 @@ theorem readSet_honest {T : List Lbl} (hT : T.length < nullIdx) (cfg : Cfg) (s :
         Res.ok (RawSet.mk (s.tableLength) (s.threshold) (unle tli) es) s')
     (c2 := entriesCalls s.entries ++ []) (a2 := rawSet T s)
     (Honest.congr (fun s' => by simp only [hna, ↓reduceIte, u4]) h5)
+  have htl0 : decide (s.tableLength = 0) = false := by simpa using hw.tl.1
   have h3 := Honest.bind (T := T) (Honest.data cfg .u32 s.entries.length none)
-    (r2 := fun cnt s' => (readData cfg (Prim.u16).tag (Prim.u16).width (some (zeros 2)) s').bind fun tli s' =>
-      if s.tableLength ≠ 1 ∧ s.tableLength * 8 ≥ cfg.allocLimit then Res.err Err.alloc s' else
-      (readEntries cfg s.tableLength (unle cnt) s').bind fun es s' =>
-        Res.ok (RawSet.mk (s.tableLength) (s.threshold) (unle tli) es) s')
-    (Honest.congr (fun s' => by simp only [u3]) h4)
+    (r2 := fun cnt s' =>
+      if !s'.good then Res.err Err.streamFail s'
+      else if s.tableLength = 0 || !lenGe s'.rest (unle cnt) then Res.err Err.streamFail s'
+      else
+        (readData cfg (Prim.u16).tag (Prim.u16).width (some (zeros 2)) s').bind fun tli s'' =>
+          if (if !lenGe s'.rest s.tableLength then (if unle cnt > 1 then unle cnt else 1) else s.tableLength) ≠ 1 ∧
+              (if !lenGe s'.rest s.tableLength then (if unle cnt > 1 then unle cnt else 1) else s.tableLength) * 8 ≥ cfg.allocLimit
+          then Res.err Err.alloc s'' else
+          (readEntries cfg (if !lenGe s'.rest s.tableLength then (if unle cnt > 1 then unle cnt else 1) else s.tableLength)
+              (unle cnt) s'').bind fun es s'' =>
+            Res.ok (RawSet.mk (if !lenGe s'.rest s.tableLength then (if unle cnt > 1 then unle cnt else 1) else s.tableLength)
+              (if !lenGe s'.rest s.tableLength then
+                (if !lenGe s'.rest s.tableLength then (if unle cnt > 1 then unle cnt else 1) else s.tableLength) else s.threshold)
+              (unle tli) es) s'')
+    (Honest.congrOn (fun t tail pos R F => by
+      obtain ⟨b1, b2⟩ := hw.bounds t
+      have g1 : lenGe ((encItems t ([Item.prim Prim.u16 s.tableLengthIndex] ++ (entriesCalls s.entries ++ []))).2 ++ tail)
+          s.entries.length = true := by rw [lenGe_iff]; simp only [List.length_append, List.singleton_append]; omega
+      have g2 : lenGe ((encItems t ([Item.prim Prim.u16 s.tableLengthIndex] ++ (entriesCalls s.entries ++ []))).2 ++ tail)
+          s.tableLength = true := by rw [lenGe_iff]; simp only [List.length_append, List.singleton_append]; omega
+      simp only [u3, g1, g2, htl0, Bool.not_true, Bool.or_self, Bool.false_eq_true, ↓reduceIte]) h4)
   have h2 := Honest.bind (T := T) (Honest.data cfg .u32 s.threshold none)
-    (r2 := fun th s' => (readData cfg (Prim.u32).tag (Prim.u32).width none s').bind fun cnt s' =>
-      (readData cfg (Prim.u16).tag (Prim.u16).width (some (zeros 2)) s').bind fun tli s' =>
-      if s.tableLength ≠ 1 ∧ s.tableLength * 8 ≥ cfg.allocLimit then Res.err Err.alloc s' else
-      (readEntries cfg s.tableLength (unle cnt) s').bind fun es s' =>
-        Res.ok (RawSet.mk (s.tableLength) (unle th) (unle tli) es) s')
+    (r2 := fun th s0 => (readData cfg (Prim.u32).tag (Prim.u32).width none s0).bind fun cnt s' =>
+      if !s'.good then Res.err Err.streamFail s'
+      else if s.tableLength = 0 || !lenGe s'.rest (unle cnt) then Res.err Err.streamFail s'
+      else
+        (readData cfg (Prim.u16).tag (Prim.u16).width (some (zeros 2)) s').bind fun tli s'' =>
+          if (if !lenGe s'.rest s.tableLength then (if unle cnt > 1 then unle cnt else 1) else s.tableLength) ≠ 1 ∧
+              (if !lenGe s'.rest s.tableLength then (if unle cnt > 1 then unle cnt else 1) else s.tableLength) * 8 ≥ cfg.allocLimit
+          then Res.err Err.alloc s'' else
+          (readEntries cfg (if !lenGe s'.rest s.tableLength then (if unle cnt > 1 then unle cnt else 1) else s.tableLength)
+              (unle cnt) s'').bind fun es s'' =>
+            Res.ok (RawSet.mk (if !lenGe s'.rest s.tableLength then (if unle cnt > 1 then unle cnt else 1) else s.tableLength)
+              (if !lenGe s'.rest s.tableLength then
+                (if !lenGe s'.rest s.tableLength then (if unle cnt > 1 then unle cnt else 1) else s.tableLength) else unle th)
+              (unle tli) es) s'')
     (Honest.congr (fun s' => by simp only [u2]) h3)
   have h1 := Honest.bind (T := T) (Honest.data cfg .u32 s.tableLength none)
-    (r2 := fun tl s' => (readData cfg (Prim.u32).tag (Prim.u32).width none s').bind fun th s' =>
-      (readData cfg (Prim.u32).tag (Prim.u32).width none s').bind fun cnt s' =>
-      (readData cfg (Prim.u16).tag (Prim.u16).width (some (zeros 2)) s').bind fun tli s' =>
-      if unle tl ≠ 1 ∧ unle tl * 8 ≥ cfg.allocLimit then Res.err Err.alloc s' else
-      (readEntries cfg (unle tl) (unle cnt) s').bind fun es s' =>
-        Res.ok (RawSet.mk (unle tl) (unle th) (unle tli) es) s')
+    (r2 := fun tl s00 => (readData cfg (Prim.u32).tag (Prim.u32).width none s00).bind fun th s0 =>
+      (readData cfg (Prim.u32).tag (Prim.u32).width none s0).bind fun cnt s' =>
+      if !s'.good then Res.err Err.streamFail s'
+      else if unle tl = 0 || !lenGe s'.rest (unle cnt) then Res.err Err.streamFail s'
+      else
+        (readData cfg (Prim.u16).tag (Prim.u16).width (some (zeros 2)) s').bind fun tli s'' =>
+          if (if !lenGe s'.rest (unle tl) then (if unle cnt > 1 then unle cnt else 1) else unle tl) ≠ 1 ∧
+              (if !lenGe s'.rest (unle tl) then (if unle cnt > 1 then unle cnt else 1) else unle tl) * 8 ≥ cfg.allocLimit
+          then Res.err Err.alloc s'' else
+          (readEntries cfg (if !lenGe s'.rest (unle tl) then (if unle cnt > 1 then unle cnt else 1) else unle tl)
+              (unle cnt) s'').bind fun es s'' =>
+            Res.ok (RawSet.mk (if !lenGe s'.rest (unle tl) then (if unle cnt > 1 then unle cnt else 1) else unle tl)
+              (if !lenGe s'.rest (unle tl) then
+                (if !lenGe s'.rest (unle tl) then (if unle cnt > 1 then unle cnt else 1) else unle tl) else unle th)
+              (unle tli) es) s'')
     (Honest.congr (fun s' => by simp only [u1]) h2)
-  exact Honest.calls_eq (by simp [setCalls]) h1
+  exact Honest.calls_eq (by simp [setCalls]) (Honest.congr (fun s' => by simp only [readSet]; rfl) h1)
 
 def WFOptSet (cfg : Cfg) : Option ConSet → Prop
   | none => True
